@@ -206,20 +206,19 @@ def xfDispLinear : Reader String := do
       pure (fmtField n (lookupField n arr))
   | .nonlin _ _ => throw "err:nonlinear"
 
-/-- `xf.disp_composite d <tg> <m> <grid> sameDomain decimals` — CompositeTransform.disp(grid) -/
+/-- `xf.disp_composite d <tg> <m> <grid> sameDomain` — CompositeTransform.disp(grid) -/
 def xfDispComposite : Reader String := do
   let d ← nat
   let tg ← grid d
   let m ← xfMember d
   let g ← grid d
   let same ← bool
-  let dec ← int
   let n := gridSizeNat g
   let maps := match dispCompositeMaps tg g same with
     | none => none
     | some (a, b) => some (xfMemoH a, xfMemoH b)
   let arr := fieldArray n (fun idx =>
-    dispCompositeWith (fun x => m.forward none x) g.alignCorners n maps (xfRnd dec) (xfIdxRat idx))
+    dispCompositeWith (fun x => m.forward none x) g.alignCorners n maps (xfIdxRat idx))
   pure (fmtField n (lookupField n arr))
 
 /-- `xf.disp_nonrigid d <tg> <flowGrid> <grid> sameGrid sameFlowGrid decimals pad size(d) u-values…` -/
@@ -312,7 +311,7 @@ def xfDefault : Reader String := do
   | "iso" => pure (fmtH (isotropicScalingTensor (d := d) false (defaultScale : Rat)))
   | "aniso" => pure (fmtH (anisotropicScalingTensor (d := d) false (fun _ => (defaultScale : Rat))))
   | "shear" => pure (fmtH (xfMemoH (shearingTensor (d := d) false (defaultTan : Nat → Rat))))
-  | "hom" => pure (fmtH (homogeneousTensor (d := d) false (defaultHomMatrix : Mat d Rat) (fun _ => 0)))
+  | "hom" => pure (fmtH (homogeneousTensor (d := d) false (defaultHomMatrix : Mat d Rat) defaultHomOffset))
   | _ => throw s!"bad-op:cls:{k}"
 
 def transformHandlers : List (String × Reader String) :=
